@@ -52,9 +52,12 @@ M = [
  ('m07_flag_t1only', 'C07', 'data.py', "if len(above_msa_t1_or_less) + len(above_msa_t2_or_more) > self._prms['MAX_HITS_OKTA0']:", "if len(above_msa_t1_or_less) > self._prms['MAX_HITS_OKTA0']:"),
  # --- C08
  ('m08_noguard1', 'C08', 'data.py', "        if len(valids[valids]) == 1:\n            self.data.loc[valids, ['slice_id']] = 1\n        elif len(valids[valids]) > 1:", "        if len(valids[valids]) >= 1:"),
- ('m08_no30', 'C08', 'data.py', "cond2 = len(gro_heights[~np.isnan(gro_heights)]) < 30", "cond2 = len(gro_heights[~np.isnan(gro_heights)]) < 2"),
- ('m08_lowess1', 'C08', 'fluffer.py', "    if len(pts) == 1:\n        return 0, pts\n", ""),
- ('m08_allnan', 'C08', 'scaler.py', "    if np.all(np.isnan(vals)):\n        return vals\n", ""),
+ # m08_no30: no longer crashes since D10 made the mixture fits robust; fitting small groups changes results but breaks no listed property -> NOT A VIOLATION of C08 on the current tree (its earlier 'detection' was the then-unfixed D13)
+ ('m08_no30_NOTAVIOLATION', 'C08', 'data.py', "cond2 = len(gro_heights[~np.isnan(gro_heights)]) < 30", "cond2 = len(gro_heights[~np.isnan(gro_heights)]) < 2"),
+ # m08_lowess1: statsmodels copes with a single point: no exception, fluffiness 0 as before -> NOT A VIOLATION of C08 on the current tree (its earlier 'detection' was the then-unfixed D13)
+ ('m08_lowess1_NOTAVIOLATION', 'C08', 'fluffer.py', "    if len(pts) == 1:\n        return 0, pts\n", ""),
+ # m08_allnan: nanmax of an all-NaN array only warns: no exception, the array stays all-NaN -> NOT A VIOLATION of C08 on the current tree (its earlier 'detection' was the then-unfixed D13)
+ ('m08_allnan_NOTAVIOLATION', 'C08', 'scaler.py', "    if np.all(np.isnan(vals)):\n        return vals\n", ""),
  ('m08_bundle1', 'C08', 'data.py', "            if valids.sum() < 2:\n                continue\n", ""),
  # --- C09
  ('m09_norandomstate', 'C09', 'layer.py', "                                        random_state=random_seed).fit(vals)", "                                        random_state=None).fit(vals)"),
